@@ -25,6 +25,8 @@
 #include <xalanc/XalanTransformer/XalanParsedSource.hpp>
 #include <xalanc/XSLT/XSLTInputSource.hpp>
 #include <xalanc/XSLT/XSLTResultTarget.hpp>
+#include <xalanc/PlatformSupport/XalanStdOutputStream.hpp>
+#include <xalanc/PlatformSupport/XalanOutputStreamPrintWriter.hpp>
 #include <xalanc/PlatformSupport/XSLException.hpp>
 #include <xalanc/Include/XalanMemoryManagement.hpp>
 
@@ -225,7 +227,40 @@ struct Scenario
 {
     std::string xsl, xml;   // texts
     bool        direct;
+    bool        writer = false;             // api "writer": ONE application-owned XalanStdOutputStream + XalanOutputStreamPrintWriter
+    std::vector<std::string> more;          //   receives the results of xsl, more[0], more[1], ... (different xsl:output encodings)
 };
+
+static std::string slurp(const char* path);
+
+// never refuses, not counted: for the harness's own argument objects
+class PlainManager : public XalanMemoryManager
+{
+public:
+    virtual void* allocate(size_type size) { return std::malloc(size ? size : 1); }
+    virtual void deallocate(void* p) { std::free(p); }
+    virtual MemoryManager* getExceptionMemoryManager() { return this; }
+};
+static PlainManager g_plain;
+
+// <base>.xsl, api: "writer" additionally loads <base>.2.xsl, <base>.3.xsl, ... while they exist
+static void setApi(Scenario& sc, const char* xslPath, const std::string& api)
+{
+    sc.direct = api == "direct" || api == "writer";
+    sc.writer = api == "writer";
+    if (sc.writer)
+    {
+        std::string base(xslPath);
+        if (base.size() > 4) base.erase(base.size() - 4);
+        for (int i = 2; i < 20; ++i)
+        {
+            std::ostringstream nm; nm << base << "." << i << ".xsl";
+            std::ifstream f(nm.str().c_str());
+            if (!f) break;
+            sc.more.push_back(slurp(nm.str().c_str()));
+        }
+    }
+}
 
 static std::string slurp(const char* path)
 {
@@ -281,6 +316,14 @@ static void runScenario(FaultManager& fm, const Scenario& sc, Result& r, std::os
 
     fm.phase = P_CTOR; stage("ctor");
     void* mem = std::malloc(sizeof(XalanTransformer));
+    // the application's own output objects (api "writer"), created from the same manager and reused for every result
+    XalanStdOutputStream* os = 0;
+    XalanOutputStreamPrintWriter* pw = 0;
+    if (sc.writer)
+    {
+        std::string how = guarded([&]() { os = ::new XalanStdOutputStream(out, fm); pw = ::new XalanOutputStreamPrintWriter(*os); return 0; });
+        if (how != "ok") { r.what[P_CTOR] = how; ::delete pw; ::delete os; std::free(mem); fm.phase = P_NONE; return; }
+    }
     r.what[P_CTOR] = guarded([&]() { t = ::new (mem) XalanTransformer(fm); return 0; });
     if (r.what[P_CTOR] != "ok") { good = false; t = 0; std::free(mem); }
     if (t) t->setWarningStream(warn);
@@ -306,7 +349,23 @@ static void runScenario(FaultManager& fm, const Scenario& sc, Result& r, std::os
     if (good)
     {
         fm.phase = P_TRANSFORM; stage("transform");
-        if (sc.direct)
+        if (sc.writer)
+        {
+            // every result goes to the same writer; a failed result does not stop the application from producing the next one
+            std::string first = "ok";
+            for (size_t n = 0; n <= sc.more.size(); ++n)
+            {
+                const std::string& xsl = n == 0 ? sc.xsl : sc.more[n - 1];
+                std::string how = guarded([&]() {
+                    std::istringstream inx(sc.xml), ins(xsl);
+                    XSLTInputSource isx(&inx, fm), iss(&ins, fm);
+                    XSLTResultTarget rt(pw, fm);
+                    return t->transform(isx, iss, rt); });
+                if (how != "ok" && first == "ok") first = how;
+            }
+            r.what[P_TRANSFORM] = first;
+        }
+        else if (sc.direct)
             r.what[P_TRANSFORM] = guarded([&]() {
                 std::istringstream inx(sc.xml), ins(sc.xsl);
                 XSLTInputSource isx(&inx, fm), iss(&ins, fm);
@@ -325,6 +384,11 @@ static void runScenario(FaultManager& fm, const Scenario& sc, Result& r, std::os
             t->~XalanTransformer();
             return 0; });
         std::free(mem);
+    }
+    if (sc.writer)
+    {
+        std::string how = guarded([&]() { ::delete pw; pw = 0; ::delete os; os = 0; return 0; });
+        if (how != "ok" && r.what[P_DESTROY] == "ok") r.what[P_DESTROY] = how;
     }
     fm.phase = P_NONE;
     r.output = out.str();
@@ -449,7 +513,23 @@ int main(int argc, char** argv)
     int rc = 0;
     if (cmd == "count" && argc >= 5)
     {
-        Scenario sc; sc.xsl = slurp(argv[2]); sc.xml = slurp(argv[3]); sc.direct = std::string(argv[4]) == "direct";
+        // the counting run (no refusal at all) runs in a child as well: a crash of the unrefused scenario is an outcome to report
+        std::cout.flush();
+        pid_t cpid = fork();
+        if (cpid != 0)
+        {
+            int st = 0;
+            waitpid(cpid, &st, 0);
+            if (!(WIFEXITED(st) && WEXITSTATUS(st) == 0))
+            {
+                std::cout << "counts-died end=";
+                if (WIFSIGNALED(st)) std::cout << "sig" << WTERMSIG(st); else std::cout << "exit" << WEXITSTATUS(st);
+                std::cout << "\n";
+            }
+            std::cout.flush();
+            return 0;
+        }
+        Scenario sc; sc.xsl = slurp(argv[2]); sc.xml = slurp(argv[3]); setApi(sc, argv[2], argv[4]);
         const char* traceFile = argc >= 6 ? argv[5] : 0;
         std::ostringstream warn;
         // run twice: the first run warms process-wide caches so that counts are those every child sees
@@ -492,10 +572,12 @@ int main(int argc, char** argv)
                 if (traceFile) dumpTrace(fm, traceFile);
             }
         }
+        std::cout.flush();
+        _exit(0);
     }
     else if ((cmd == "sweep" && argc >= 10) || (cmd == "one" && argc >= 9))
     {
-        Scenario sc; sc.xsl = slurp(argv[2]); sc.xml = slurp(argv[3]); sc.direct = std::string(argv[4]) == "direct";
+        Scenario sc; sc.xsl = slurp(argv[2]); sc.xml = slurp(argv[3]); setApi(sc, argv[2], argv[4]);
         int ph = phaseOf(argv[5]);
         if (ph <= 0) { std::fprintf(stderr, "bad phase\n"); return 2; }
         long from, to; int jobs; int exc; const char* traceFile = 0;
@@ -583,7 +665,7 @@ int main(int argc, char** argv)
             std::ostringstream warn;
             for (int a = 4; a + 4 < argc; a += 5)
             {
-                Scenario sc; sc.xsl = slurp(argv[a]); sc.xml = slurp(argv[a + 1]); sc.direct = std::string(argv[a + 2]) == "direct";
+                Scenario sc; sc.xsl = slurp(argv[a]); sc.xml = slurp(argv[a + 1]); setApi(sc, argv[a], argv[a + 2]);
                 int ph = phaseOf(argv[a + 3]); long k = atol(argv[a + 4]);
                 fm->arm(k ? ph : P_NONE, k, exc);
                 std::memset(fm->allocs, 0, sizeof fm->allocs);
@@ -602,6 +684,39 @@ int main(int argc, char** argv)
         int status = 0;
         waitpid(pid, &status, 0);
         report(0, "seq", raw, status);
+    }
+    else if (cmd == "enc" && argc >= 4)
+    {
+        // c19_memmgr enc <failAt> <enc>...: one application-owned XalanStdOutputStream, setOutputEncoding() for each <enc> with the
+        // failAt-th request of the whole history refused; per call: outcome, whether the stream holds a transcoder, bad frees so far.
+        // Runs in a child: a double destroy may crash.
+        std::cout.flush();
+        pid_t cpid = fork();
+        if (cpid == 0)
+        {
+            FaultManager* fm = new FaultManager;
+            std::ostringstream sink;
+            XalanStdOutputStream* os = ::new XalanStdOutputStream(sink, *fm);
+            long base = 0;
+            for (int p = 0; p < P_NPHASE; ++p) base += fm->allocs[p];
+            fm->phase = P_TRANSFORM;
+            fm->arm(P_TRANSFORM, atol(argv[2]), FaultManager::EXC_OOM);
+            for (int a = 3; a < argc; ++a)
+            {
+                std::string how = guarded([&]() { const XalanDOMString name(argv[a], g_plain); os->setOutputEncoding(name); return 0; });
+                std::cout << "enc " << argv[a] << " " << (how == "ok" ? "ok" : how == "oom" ? "oom" : "exc")
+                          << " slot=" << (os->getTranscoder() != 0 ? 1 : 0) << " bad=" << (fm->foreign + fm->dbl) << "\n";
+                std::cout.flush();
+            }
+            fm->failAt = 0;
+            ::delete os;
+            std::cout << "destroyed live=" << fm->live.size() << " bad=" << (fm->foreign + fm->dbl) << "\n";
+            std::cout.flush();
+            _exit(0);
+        }
+        int st = 0;
+        waitpid(cpid, &st, 0);
+        if (!(WIFEXITED(st) && WEXITSTATUS(st) == 0)) std::cout << "died\n";
     }
     else
     {
